@@ -35,10 +35,10 @@ TReset == Ev("reset") /\ phase' = "Idle" /\ tainted' = FALSE
 \* opening a connection in either direction: the node is alive, nothing is deadlocked and it waits for the remote's handshake packet
 \* (when dialing: after having sent its own request, which the remote could decrypt - E.req - otherwise the binding is broken)
 TConnect == /\ Ev("Connect") /\ ~tainted /\ "dead" \notin DOMAIN E
-            /\ E.alive /\ Len(E.blocked) = 0 /\ ~E.closed
+            /\ E.alive /\ Len(E.blocked) = 0 /\ ~E.closed /\ E.allocK <= Bound(0)
             /\ phase' = "PreHs" /\ UNCHANGED tainted
 TDial == /\ Ev("Dial") /\ ~tainted /\ "dead" \notin DOMAIN E
-         /\ E.alive /\ Len(E.blocked) = 0 /\ ~E.closed /\ E.req = "ok"
+         /\ E.alive /\ Len(E.blocked) = 0 /\ ~E.closed /\ E.allocK <= Bound(0) /\ E.req = "ok"
          /\ phase' = "OutHs" /\ UNCHANGED tainted
 TRecv == /\ Ev("Recv") /\ ~tainted /\ "dead" \notin DOMAIN E
          /\ \E t \in TRows(E.a[1], phase) :
